@@ -19,7 +19,7 @@ func sortedAPIs() []*API {
 	return out
 }
 
-// The table of SPEC.md §2.
+// The table of SPEC.md §2, plus the APIs of schemas_more.go.
 func TestAPITable(t *testing.T) {
 	want := []struct {
 		key      int16
@@ -34,6 +34,14 @@ func TestAPITable(t *testing.T) {
 		{18, "ApiVersions", 3, 3}, {19, "CreateTopics", 5, 5}, {20, "DeleteTopics", 4, 4},
 		{22, "InitProducerId", 4, 2}, {36, "SaslAuthenticate", 2, 2}, {37, "CreatePartitions", 3, 2},
 		{42, "DeleteGroups", 2, 2}, {47, "OffsetDelete", 0, -1},
+		// schemas_more.go
+		{24, "AddPartitionsToTxn", 3, 3}, {25, "AddOffsetsToTxn", 3, 3}, {26, "EndTxn", 3, 3},
+		{28, "TxnOffsetCommit", 3, 3}, {29, "DescribeAcls", 3, 2}, {30, "CreateAcls", 3, 2},
+		{31, "DeleteAcls", 3, 2}, {32, "DescribeConfigs", 4, 4}, {33, "AlterConfigs", 2, 2},
+		{43, "ElectLeaders", 2, 2}, {44, "IncrementalAlterConfigs", 1, 1},
+		{45, "AlterPartitionReassignments", 0, 0}, {46, "ListPartitionReassignments", 0, 0},
+		{48, "DescribeClientQuotas", 1, 1}, {49, "AlterClientQuotas", 1, 1},
+		{50, "DescribeUserScramCredentials", 0, 0}, {51, "AlterUserScramCredentials", 0, 0},
 	}
 	if len(APIs) != len(want) {
 		t.Errorf("got %d APIs, want %d", len(APIs), len(want))
